@@ -87,25 +87,29 @@ Definition builtin_call_ok (c : string * nat) : bool :=
 Definition lambda_def (t : node) : option (string * nat) :=
   match strewrite t with
   | Some (NAssign (NName f) (NFunction ps body lc)) =>
-      if (lc =? zlen ps) && lpure (repeat VNil (List.length ps)) body && negb (is_builtin_leaf f)
+      if (lc =? zlen ps) && lpure (repeat VNil (List.length ps)) body && negb (is_builtin_leaf f) &&
+         wfb (NAssign (NName f) (NFunction ps body lc))
       then Some (f, List.length ps) else None
   | _ => None
   end.
 
-(* the trees of one session that lie in the fragment: built-in names still hold the built-ins, and every
+(* the trees of one session that lie in the fragment: built-in names still hold the built-ins, and the tree
+   is a qualifying definition (the premises of C01_definition_extends_the_table) or a statement in which every
    function called is a built-in or a user function defined earlier by a qualifying definition and not
    rebound since (funs) — with any number of arguments: too few or too many is the arity error the theorem covers *)
 Fixpoint count_fragment (trees : list node) (intact : bool) (funs : list (string * nat)) : nat :=
   match trees with
   | [] => 0
   | t :: r =>
-      let ok := intact && in_fragment t &&
-                match strewrite t with
-                | Some t' => forallb (fun c => builtin_call_ok c ||
-                                               existsb (fun f => String.eqb (fst c) (fst f)) funs)
-                                     (callees t')
-                | None => false
-                end in
+      let ok := intact &&
+                (match lambda_def t with Some _ => true | None => false end ||
+                 in_fragment t &&
+                 match strewrite t with
+                 | Some t' => forallb (fun c => builtin_call_ok c ||
+                                                existsb (fun f => String.eqb (fst c) (fst f)) funs)
+                                      (callees t')
+                 | None => false
+                 end) in
       let bound := binds t in
       let funs1 := filter (fun f => negb (existsb (String.eqb (fst f)) bound)) funs in
       let funs2 := match lambda_def t with Some f => f :: funs1 | None => funs1 end in
